@@ -341,6 +341,36 @@ def r_leg_rekey(ck: Checker) -> None:
         raise Unsupported(f"only {n_sites} id rewrites of existing legacy nodes found (2 confirmed by hand in replace_with)", None)
 
 
+def r_leg_live_links(ck: Checker) -> None:
+    """The upward queries answer from the live parent links; the calculated xpath is a snapshot (`calculate_xpath` has to be called again
+    after the tree changed), so an answer derived from it disagrees with the structure after the next mutation.  Likewise the downward
+    accessors are recomputed on every call: a copy kept on the node goes stale when a twin with equal content takes a child's place."""
+    for q in ("ancestors", "get_depth", "is_ancestor", "parent", "parent_field", "parent_index"):
+        if not ck.repo.has_func(LNODE, f"{CLS}.{q}"):
+            continue
+        f = ck.repo.func(LNODE, f"{CLS}.{q}")
+        what = f"{CLS}.{q} answers from the parent links, never from the cached xpath"
+        reads = [n for n in ast.walk(f.node) if isinstance(n, ast.Attribute) and n.attr in ("xpath", "_xpath")] + \
+            [c for c in ast.walk(f.node) if isinstance(c, ast.Call) and dotted(c.func) == "getattr" and len(c.args) >= 2 and isinstance(c.args[1], ast.Constant) and c.args[1].value in ("_xpath", "xpath")]
+        if reads:
+            ck.violation("R-LEG-IDENT", f, reads[0], what, construct=f"{CLS}.{q} reads the last calculated xpath: after the tree is changed (a new parent above the root, a subtree moved) "
+                         "the answer no longer agrees with the parent chain")
+        else:
+            ck.holds("R-LEG-IDENT", f, f.node, what)
+    for q in ("children", "get_child_nodes", "get_child_nodes_with_field", "get_properties", "get_child_fields"):
+        if not ck.repo.has_func(LNODE, f"{CLS}.{q}"):
+            continue
+        f = ck.repo.func(LNODE, f"{CLS}.{q}")
+        what = f"{CLS}.{q} is computed from the fields on every call (no copy is kept on the node)"
+        stores = [c for c in ast.walk(f.node) if isinstance(c, ast.Call) and dotted(c.func) in ("object.__setattr__", "setattr") and c.args and norm(c.args[0]) == "self"] + \
+            [n for n in ast.walk(f.node) if isinstance(n, (ast.Attribute, ast.Subscript)) and isinstance(n.ctx, ast.Store) and norm(n.value).startswith("self")]
+        if stores:
+            ck.violation("R-LEG-IDENT", f, stores[0], what, construct=f"{CLS}.{q} keeps a copy of its answer on the node ({norm(stores[0])[:50]}): replacing a child by a twin with equal "
+                         "content leaves the copy pointing at the detached node")
+        else:
+            ck.holds("R-LEG-IDENT", f, f.node, what)
+
+
 def r_leg_digest(ck: Checker) -> None:
     f = ck.repo.func(LNODE, f"{CLS}._set_content_id")
     sinks = [s for s in contributions(f) if s.attr == "content_id"]
@@ -403,6 +433,7 @@ def run(ck: Checker) -> None:
     ck.guard("R-LEG-PROPAGATE", lambda: r_leg_propagate(ck))
     ck.guard("R-LEG-LINK", lambda: r_leg_link(ck))
     ck.guard("R-LEG-LINK", lambda: r_leg_rekey(ck))
+    ck.guard("R-LEG-IDENT", lambda: r_leg_live_links(ck))
     ck.guard("R-LEG-DIGEST", lambda: r_leg_digest(ck))
     from .c20 import r_legacy_presence, r_xpath_spell
     ck.guard("R-LEG-XPATH-SPELL", lambda: r_xpath_spell(ck))
